@@ -84,8 +84,8 @@ def prove1(assumptions, goal, seed=0, timeout_ms=None, use_cvc5=True, both=False
     assumptions, goal = norm.prep(assumptions, goal, split_depth=split_depth)
     if lemmas:
         n = norm.Normalizer()
-        inst = lem.instantiate(lemmas, list(assumptions) + [goal])
-        assumptions = list(assumptions) + [n.norm(i) for i in inst]
+        assumptions, gs = saturate(assumptions, [goal], lemmas, n)
+        goal = gs[0]
     s = _mk_solver(timeout_ms or Z3_TIMEOUT_MS, seed)
     for a in assumptions:
         s.add(a)
@@ -111,6 +111,51 @@ def prove1(assumptions, goal, seed=0, timeout_ms=None, use_cvc5=True, both=False
     return v
 
 
+def saturate(nas, ngs, lemmas, n, rounds=4):
+    """Lemma instantiation + conditional rewriting: an instance  H => lhs == rhs  of a `crewrite` lemma whose H is entailed by the
+    current assumptions replaces lhs by rhs everywhere (equals for equals), which lets further triggers match syntactically."""
+    from . import lemmas as lem
+    nas, ngs = list(nas), list(ngs)
+    seen = set()
+    allsubs = []
+    for _ in range(rounds):
+        inst, tags = lem.instantiate(lemmas, nas + ngs, tagged=True)
+        inst = [n.norm(i) for i in inst]
+        subs = []
+        base = nas + inst
+        for f, lm in zip(inst, tags):
+            if not getattr(lm, 'crewrite', False):
+                continue
+            hyp, eq = (f.arg(0), f.arg(1)) if z3.is_implies(f) else (None, f)
+            if not z3.is_eq(eq) or eq.arg(0).eq(eq.arg(1)):
+                continue
+            key = eq.get_id()
+            if key in seen:
+                continue
+            if hyp is not None:
+                sv = _mk_solver(1500, 0)
+                for a in base:
+                    sv.add(a)
+                sv.add(z3.Not(hyp))
+                if sv.check() != z3.unsat:
+                    continue
+            seen.add(key)
+            subs.append((eq.arg(0), eq.arg(1)))
+            allsubs.append((eq.arg(0), eq.arg(1)))
+            nas.append(eq)
+        nas = nas + [i for i in inst if not any(i.eq(a) for a in nas[-len(inst):])] if not subs else nas + inst
+        if not subs:
+            break
+        for _k in range(3):     # equations found earlier also apply to terms introduced by later replacements
+            nas2 = [n.norm(z3.substitute(a, *allsubs)) for a in nas]
+            ngs2 = [n.norm(z3.substitute(g, *allsubs)) for g in ngs]
+            same = all(x.eq(y) for x, y in zip(nas + ngs, nas2 + ngs2))
+            nas, ngs = nas2, ngs2
+            if same:
+                break
+    return nas, ngs
+
+
 def prove_group(assumptions, goals, seed=0, timeout_ms=None, use_cvc5=True, both=False, lemmas=None, split_depth=0):
     """Several goals under the same assumptions: unfolding and lemma instantiation are done once for the group."""
     from . import norm, lemmas as lem
@@ -119,8 +164,7 @@ def prove_group(assumptions, goals, seed=0, timeout_ms=None, use_cvc5=True, both
     n = norm.shared_normalizer()
     nas, ngs = norm.prep_many(assumptions, goals, split_depth=split_depth, normalizer=n)
     if lemmas:
-        inst = lem.instantiate(lemmas, list(nas) + list(ngs))
-        nas = list(nas) + [n.norm(i) for i in inst]
+        nas, ngs = saturate(nas, ngs, lemmas, n)
     s = _mk_solver(timeout_ms or Z3_TIMEOUT_MS, seed)
     for a in nas:
         s.add(a)
